@@ -1,7 +1,7 @@
 (* EquivRemove.v -- see EquivElem.v: the body of `remove`, regenerated from src/lib.rs on every run, evaluates to
    Machine.remove (with the function-boundary semantics of EquivElem.v). *)
 From Coq Require Import ZArith List String Bool Lia.
-From MV Require Import Ast Eval Scalar Machine Equiv Prims EquivTac EquivElem.
+From MV Require Import Ast Eval Scalar Machine EquivDefs Prims EquivTac EquivElem.
 From MV.Gen Require Import AstGen.
 Import ListNotations.
 Open Scope string_scope.
